@@ -5,6 +5,7 @@ import (
 	"fmt"
 	"math"
 	"net/http"
+	"net/http/httptest"
 	"net/url"
 	"reflect"
 	"sort"
@@ -12,6 +13,7 @@ import (
 	"strings"
 	"testing"
 
+	"github.com/fabiolb/fabio/admin/api"
 	"github.com/fabiolb/fabio/route"
 	"pgregory.net/rapid"
 
@@ -585,6 +587,17 @@ func TestC05Commands(t *testing.T) {
 			return
 		}
 		rendered := tbl.String()
+		// the rendering operators get is the one of the admin API (GET /api/routes?raw, which the
+		// UI's "manual overrides" editor starts from): the same text
+		if rapid.Bool().Draw(t, "rendering-through-the-admin-api") {
+			route.SetTable(tbl)
+			rec := httptest.NewRecorder()
+			(&api.RoutesHandler{}).ServeHTTP(rec, httptest.NewRequest("GET", "http://admin.local/api/routes?raw", nil))
+			if got := strings.TrimSuffix(rec.Body.String(), "\n"); got != rendered {
+				t.Fatalf("GET /api/routes?raw serves a different text than the table's rendering\nserved:\n%s\nrendering:\n%s", got, rendered)
+			}
+			hx.Class("roundtrip:rendering-served-by-the-admin-api")
+		}
 		tbl2, err := route.NewTable(bytes.NewBufferString(rendered))
 		if err != nil {
 			t.Fatalf("the parser rejects the table's own rendering: %v\nrendering:\n%s\nprogram:\n%s", err, rendered, text)
